@@ -2,6 +2,7 @@ package main
 
 import (
 	"fmt"
+	"go/token"
 	"sort"
 	"strings"
 
@@ -73,7 +74,7 @@ func alwaysNil(v ssa.Value) bool {
 }
 
 func checkC08(c *Ctx, r *Report) {
-	r.Explanation = "Decides four structural necessary conditions of 'restore copies an exact valid prefix or nothing': (R1) after every successful UploadSegment to the target, the key pair is registered in the rollback list before any return, with the same keys that were uploaded, and the deferred rollback deletes both the index and the segment of every registered pair; (R2) the commit flag is set exactly once, the success return is dominated by it and no error return is reachable after it; (R3) the first upload is preceded by the empty-target check; (R4) truncateRecordBatchToTimestamp rewrites exactly the header fields length, lastOffsetDelta, maxTimestamp, numRecords and crc, with the CRC written last and computed over [21:] of the same slice with the Castagnoli table. It does not decide that the kept records are an exact prefix or the timestamp selection."
+	r.Explanation = "Decides four structural necessary conditions of 'restore copies an exact valid prefix or nothing': (R1) after every successful UploadSegment to the target, the key pair is registered in the rollback list before any return, with the same keys that were uploaded, and the deferred rollback deletes both the index and the segment of every registered pair; (R2) the commit flag is set exactly once, the success return is dominated by it and no error return is reachable after it; (R3) the first upload is preceded by the empty-target check; (R4) truncateRecordBatchToTimestamp rewrites exactly the header fields length, lastOffsetDelta, maxTimestamp, numRecords and crc, with the CRC written last and computed over [21:] of the same slice with the Castagnoli table. (R5) the scanner's 'finished' result is true only on paths that passed a `timestamp > cutoff` test — a batch kept whole, or holding no records, must not end the restore of the batches after it (the defect repaired by a6b81cf). It does not decide that the kept records are an exact prefix byte for byte."
 	r.NotCovered = "that the kept records are an exact prefix; timestamp selection; behaviour when a rollback delete itself fails"
 	m, err := c.Mod("root")
 	if err != nil {
@@ -84,6 +85,8 @@ func checkC08(c *Ctx, r *Report) {
 	r.rule("C08.R2", "restoreCommitted=true has one writer that dominates the success return, and no error return is reachable after it", 2)
 	r.rule("C08.R3", "UploadSegment is preceded by ListSegments(targetPrefix) and the '.kfs exists → error' return", 1)
 	r.rule("C08.R4", "truncateRecordBatchToTimestamp patches exactly {8:12,23:27,35:43,57:61,17:21}; the CRC patch is last and covers truncated[21:] of the same slice", 2)
+	r.rule("C08.R5", "the batch scanner reports 'finished' only after a record (or a batch's first timestamp) later than the cutoff was seen", 1)
+	checkC08Done(m, r)
 
 	fn := needFn(m, r, "C08.R1", pkgStorage, "RecoverTopicToTimestamp")
 	if fn != nil {
@@ -349,5 +352,172 @@ func checkC08(c *Ctx, r *Report) {
 				r.viol("C08.R4", "CRC patched last over [21:] of the same slice", m.Pos(p.call.Pos()), bad)
 			}
 		}
+	}
+}
+
+// checkC08Done: in truncateRecordBatchToTimestamp the third result (done) can be true only where a
+// timestamp later than the cutoff has been compared on the way.
+func checkC08Done(m *Module, r *Report) {
+	fn := needFn(m, r, "C08.R5", pkgStorage, "truncateRecordBatchToTimestamp")
+	if fn == nil {
+		return
+	}
+	cutoff := ssa.Value(fn.Params[1])
+	// a record's timestamp: the batch's first timestamp (header bytes 27:35), possibly plus a record
+	// delta — not the header's max timestamp (35:43), which says nothing about an individual record
+	isRecordTs := func(v ssa.Value) bool {
+		first, max := false, false
+		backSlice(v, true, func(w ssa.Value) {
+			if sl, ok := w.(*ssa.Slice); ok && sl.Low != nil {
+				if k, ok := constInt(sl.Low); ok {
+					if k == 27 {
+						first = true
+					}
+					if k == 35 {
+						max = true
+					}
+				}
+			}
+		})
+		return first && !max
+	}
+	// "kept != count" also proves that the record loop was left early: kept is a counter that is
+	// incremented once per completed iteration in lockstep with the loop index, whose bound is count;
+	// the only early exits of that loop are returns and the later-record break
+	keptShort := func(l Lit) bool {
+		if l.Op != token.NEQ {
+			return false
+		}
+		for _, pair := range [][2]ssa.Value{{l.X, l.Y}, {l.Y, l.X}} {
+			c, ok := strip(pair[0]).(*ssa.Phi)
+			if !ok || len(c.Edges) != 2 {
+				continue
+			}
+			hdr := c.Block()
+			ifi, ok := hdr.Instrs[len(hdr.Instrs)-1].(*ssa.If)
+			if !ok {
+				continue
+			}
+			cond, ok := ifi.Cond.(*ssa.BinOp)
+			if !ok || cond.Op != token.LSS || strip(cond.Y) != strip(pair[1]) {
+				continue
+			}
+			idx, ok := strip(cond.X).(*ssa.Phi)
+			if !ok || idx.Block() != hdr || len(idx.Edges) != 2 {
+				continue
+			}
+			lock := true
+			for i := range c.Edges {
+				if !hdr.Dominates(hdr.Preds[i]) {
+					// entry edge: both start at 0
+					k1, ok1 := constInt(c.Edges[i])
+					k2, ok2 := constInt(idx.Edges[i])
+					if !ok1 || !ok2 || k1 != 0 || k2 != 0 {
+						lock = false
+					}
+					continue
+				}
+				// back edge: both are phi + 1
+				for _, pr := range [][2]ssa.Value{{c.Edges[i], c}, {idx.Edges[i], idx}} {
+					bo, ok := strip(pr[0]).(*ssa.BinOp)
+					if !ok || bo.Op != token.ADD || bo.X != pr[1] {
+						lock = false
+						continue
+					}
+					if one, ok := constInt(bo.Y); !ok || one != 1 {
+						lock = false
+					}
+				}
+			}
+			if lock {
+				return true
+			}
+		}
+		return false
+	}
+	later := Guard{cl(atomFn("record timestamp > cutoff", func(l Lit) bool {
+		switch l.Op {
+		case token.GTR:
+			return strip(l.Y) == cutoff && isRecordTs(l.X)
+		case token.LSS:
+			return strip(l.X) == cutoff && isRecordTs(l.Y)
+		}
+		return false
+	}), atomFn("kept != count (loop left early)", keptShort))}
+	n := 0
+	var judge func(v ssa.Value, at ssa.Instruction, pred *ssa.BasicBlock, si int, depth int)
+	seen := map[ssa.Value]bool{}
+	judge = func(v ssa.Value, at ssa.Instruction, pred *ssa.BasicBlock, si int, depth int) {
+		v = strip(v)
+		if c, ok := v.(*ssa.Const); ok {
+			if c.Value == nil || c.Value.String() != "true" {
+				return
+			}
+			n++
+			key := fmt.Sprintf("'finished' is reported true only after a later timestamp was seen [%d]", n)
+			var res GuardResult
+			pos := ""
+			if pred != nil {
+				res = edgeGuarded(m, fn, pred, si, later)
+				pos = blockPosFull(m, pred)
+			} else {
+				res = checkGuarded(m, fn, at, later)
+				pos = m.Pos(at.Pos())
+			}
+			if res.OK {
+				r.ok("C08.R5", key, pos, "")
+			} else {
+				r.viol("C08.R5", key, pos, "the scan is declared finished on a path that met no record later than the cutoff — the batches after this one are dropped although they may hold records to restore: "+res.String())
+			}
+			return
+		}
+		if ph, ok := v.(*ssa.Phi); ok && !seen[ph] && depth < 8 {
+			seen[ph] = true
+			for i, e := range ph.Edges {
+				p := ph.Block().Preds[i]
+				idx := 0
+				for j, sb := range p.Succs {
+					if sb == ph.Block() {
+						idx = j
+					}
+				}
+				judge(e, at, p, idx, depth+1)
+			}
+			return
+		}
+		if _, ok := v.(*ssa.Phi); ok {
+			return
+		}
+		// any other computed value: it must itself be a `> cutoff` comparison
+		if bo, ok := v.(*ssa.BinOp); ok && ((bo.Op == token.GTR && strip(bo.Y) == cutoff && isRecordTs(bo.X)) || (bo.Op == token.LSS && strip(bo.X) == cutoff && isRecordTs(bo.Y))) {
+			n++
+			r.ok("C08.R5", fmt.Sprintf("'finished' is reported true only after a later timestamp was seen [%d]", n), m.Pos(bo.Pos()), "the result is the comparison itself")
+			return
+		}
+		n++
+		r.viol("C08.R5", fmt.Sprintf("'finished' is reported true only after a later timestamp was seen [%d]", n), m.Pos(at.Pos()), "the result is "+describe(v)+", which is not tied to a `timestamp > cutoff` test")
+	}
+	for _, b := range fn.Blocks {
+		ret, ok := b.Instrs[len(b.Instrs)-1].(*ssa.Return)
+		if !ok || len(ret.Results) < 3 {
+			continue
+		}
+		for _, o := range []ssa.Value{ret.Results[2]} {
+			// results are often spilled through a local when defers exist; origins resolves that
+			vals := []ssa.Value{o}
+			switch strip(o).(type) {
+			case *ssa.Phi, *ssa.Const, *ssa.BinOp:
+			default:
+				if ov := origins(o); len(ov) > 0 {
+					vals = ov
+				}
+			}
+			for _, v := range vals {
+				judge(v, ret, nil, 0, 0)
+			}
+		}
+	}
+	if n == 0 {
+		r.unresolved("C08.R5", "truncateRecordBatchToTimestamp: 'finished' results", "no true result found")
 	}
 }
